@@ -4,7 +4,7 @@ import vlib
 from vlib import coq_str
 
 MANIFEST = {
-    "text": "Coq theorems (C15_route, C15_echo, C15_no_false_success, C15_respond_only_truthful, C15_independent over all requests, "
+    "text": "Coq theorems (C15_route, C15_echo, C15_no_false_success, C15_respond_only_truthful, C15_independent, C15_reply_ignores_pending_table over all requests, "
             "manager outcomes, manager sets, stream permutations and interleavings) about a model that INTERPRETS the dispatch table "
             "regenerated from the source by `xlate dispatch` (type code -> processor; for the phase-two processors the asserted "
             "request, the manager-selecting expression, method and arguments, what a manager error does (silence always / only without a status) and the result codes, the echoed response fields and "
@@ -77,6 +77,7 @@ def write_conf(chk):
 def run(chk):
     quick = chk.tier == "quick"
     vlib.run_xlate("dispatch", "DispatchTable.v")
+    vlib.run_xlate("futures", "FuturesCfg.v")  # C15_reply_ignores_pending_table is stated at the regenerated futures configuration
     okc, outc = vlib.coq_make(["Remoting/ProcessorCases.vo"])
     if not okc:
         raise vlib.TieBroken("the regenerated dispatch table does not type-check in Coq:\n" + outc[-1500:])
@@ -115,7 +116,8 @@ def run(chk):
     bad_streams = sorted([i for i, cs in enumerate(streams) if cs["oracle"]], key=lambda i: len(streams[i]["reqs"]))
     for i in bad_streams[:3]:
         cs = streams[i]
-        chk.violation("%s stream of %d requests: %s" % (cs["kind"], len(cs["reqs"]), cs["oracle"][0]),
+        pend = (" while the client's own requests with ids %s await their answers" % cs["pending_ids"]) if cs.get("pending_ids") else ""
+        chk.violation("%s stream of %d requests%s: %s" % (cs["kind"], len(cs["reqs"]), pend, cs["oracle"][0]),
                       {"stream": slim(cs), "seed": chk.seed, "tier": chk.tier}, True)
     if data.get("lookup_wrong"):
         chk.violation("routing step under concurrent requests of different branch types: " + data["lookup_wrong"][0],
@@ -163,6 +165,9 @@ def run(chk):
         "streams": len(streams),
         "streams_by_kind": {k: sum(1 for cs in streams if cs["kind"] == k) for k in sorted({cs["kind"] for cs in streams})},
         "concurrent_lookups_checked": data.get("lookups"),
+        "streams_with_pending_client_requests": sum(1 for cs in streams if cs.get("pending_ids")),
+        "requests_whose_frame_id_is_a_pending_client_id": sum(1 for cs in streams if cs.get("pending_ids")
+                                                              for q in cs["reqs"] if q["msg_id"] in cs["pending_ids"]),
         "model_cases_evaluated_in_coq": len(terms),
         "max_stream": max(len(cs["reqs"]) for cs in streams),
         "request_kinds_covered": vlib.distinct([kind(q) for q in reqs]),
